@@ -57,6 +57,12 @@ class SimLoop(asyncio.BaseEventLoop):
     def time(self) -> float:
         return self._vnow
 
+    def burn(self, dt: float) -> None:
+        """The step that is running right now takes `dt` of (virtual) time - a busy event loop.  Timers that fall due meanwhile fire
+        on the next iteration, after whatever this step does."""
+        if dt > 0:
+            self._vnow += dt
+
     # -- timers -----------------------------------------------------------
     def call_at(self, when, callback, *args, context=None):
         if when is None:
